@@ -33,10 +33,16 @@ def derive(cfg, seed):
     return {"bits": [8, 4][(h // 3) % 2], "pols": 1 + (h // 6) % 2, "nant": 1 + (h // 12) % 2, "nch": nch,
             "start_chan": (h // 24) % (B // 2 - nch + 1), "dio": ["absent", "zero", "one"][(h // 96) % 3],
             "extra": (h // 288) % 34, "U": 1 + (h // 9792) % 3, "tone": (h // 29376) % 3 != 0,
-            "ascending": bool((h // 88128) % 2), "seed": 7 + h % 9973}
+            "ascending": bool((h // 88128) % 2), "seed": 7 + h % 9973,
+            "aligned": (h // 176256) % 5 == 0,      # DIRECTIO header that is already a multiple of 512 bytes (cards % 32 == 0)
+            "big": (h // 881280) % 12 == 0}        # more than 10000 time samples per block
 
 
 def write_input(cfg, inst, workdir):
+    if inst["big"]:
+        inst["U"] = 5200 // cfg["nsub"] + 1
+    if inst["aligned"]:
+        inst["dio"] = "one"
     T = TAPS * cfg["nsub"] * inst["U"]
     bps = 2 * inst["pols"] * inst["bits"] // 8
     obsnchan = inst["nch"] * inst["nant"]
@@ -63,6 +69,8 @@ def write_input(cfg, inst, workdir):
         hdr["DIRECTIO"] = 0
     elif inst["dio"] == "one":
         hdr["DIRECTIO"] = 1
+    if inst["aligned"]:
+        inst["extra"] = (32 - (len(hdr) + 1) % 32) % 32
     for k in range(inst["extra"]):
         hdr["FILL%03d" % k] = k
     rng = np.random.default_rng(inst["seed"])
@@ -147,59 +155,7 @@ def run_config(exp, seed, workdir):
                             return out
                         rq.quantize = wrapped
                     mk(rq, (a, p, comp))
-        out_stem = os.path.join(workdir, "out")
-        try:
-            if cfg["req"] == 0:
-                be.record(out_stem, length_mode="num_blocks", digitize=cfg["digitize"], verbose=False, header_dict={})
-            else:
-                be.record(out_stem, num_blocks=cfg["req"], length_mode="num_blocks", digitize=cfg["digitize"], verbose=False,
-                          header_dict={})
-        except Exception as e:
-            raise Div("C14", "record", "ok", "%s: %s" % (type(e).__name__, str(e)[:200]))
-        nb = exp["numBlocks"]
-        # 1. length clamp and accounting
-        if be.num_blocks != nb:
-            raise Div("C14|C20", "num_blocks", nb, be.num_blocks)
-        tpb = T * B / RATE
-        if abs(be.obs_length - nb * tpb) > 1e-12 * nb * tpb or be.total_obs_num_samples != nb * T * B:
-            raise Div("C14|C20", "obs_length/total_obs_num_samples", [nb * tpb, nb * T * B], [be.obs_length, be.total_obs_num_samples])
-        # 2. decode of every input block consumed, in order
-        if len(decoded) != len(exp["reads"]):
-            raise Div("C14", "reads.count", len(exp["reads"]), len(decoded))
-        for k, rd in enumerate(exp["reads"]):
-            want = truth[rd["file"] * cfg["bpf"] + rd["index"]]                     # [obsnchan, T, pols]
-            want2 = want.reshape(want.shape[0], T * inst["pols"])                   # library layout: column = t*pols + pol
-            if decoded[k].shape != want2.shape or not np.array_equal(decoded[k], want2):
-                bad = np.argwhere(decoded[k] != want2)[:3].tolist() if decoded[k].shape == want2.shape else "shape %s" % (decoded[k].shape,)
-                raise Div("C14", "decode", {"block": k, "file": rd["file"], "index": rd["index"]}, {"first_wrong": bad})
-        # 3. output framing
-        names = sorted(fn for fn in os.listdir(workdir) if fn.startswith("out."))
-        out_blocks = []
-        for i, fn in enumerate(names):
-            try:
-                blocks = guppi.parse_file(os.path.join(workdir, fn))
-            except guppi.FramingError as e:
-                raise Div("C14|C04", "out.framing", "well-formed", str(e))
-            out_blocks += blocks
-        if len(out_blocks) != nb:
-            raise Div("C14", "out.blocks", nb, len(out_blocks))
-        for blk in out_blocks:
-            h = blk["hdr"]
-            got = (h.get("BLOCSIZE"), h.get("NBITS"), h.get("OBSNCHAN"), h.get("NANTS", 1))
-            want = (blocsize, inst["bits"], inst["nch"] * inst["nant"], inst["nant"])
-            if got != want:
-                raise Div("C14", "out.header", list(want), list(got))
-            if abs(float(h.get("SCANLEN")) - nb * tpb) > 1e-9 * nb * tpb:
-                raise Div("C14|C20", "out.SCANLEN", nb * tpb, h.get("SCANLEN"))
-        # 4. stationary gain: the custom deviation handed to the requantiser at every sub-block of every block
-        tstd = dig.target_std
-        if lazy:
-            base = np.array(be.filterbank[0][0].channelized_stds, dtype=float).copy()
-            fresh = v_pfb.PolyphaseFilterbank(num_taps=TAPS, num_branches=B).estimate_channelized_stds(factor=4000, seed=9)
-            if base.shape != (2,) or not np.all(np.abs(base / fresh - 1) < 0.08):
-                raise Div("C14", "channelized_stds", fresh.tolist(), base.tolist())
-        # the synthetic part entering the first requantisation is the PFB of the (digitised) antenna stream: one
-        # continuous timeline over sub-blocks and blocks
+        # the twin antenna supplies the reference for the synthetic part; it lives across recordings like the real one
         twin_kw = dict(kw)
         if inst["nant"] == 1:
             twin = v_antenna.Antenna(**twin_kw)
@@ -210,70 +166,131 @@ def run_config(exp, seed, workdir):
         if inst["tone"]:
             for k_, st in enumerate(tstreams):
                 st.add_constant_signal(f_start=(inst["start_chan"] + 0.3) * RATE / B, drift_rate=0, level=0.2 + 0.05 * k_)
-        tv = twin.get_samples((nb * T + TAPS) * B) if nb > 0 else None
-        gains = []
-        for a in range(inst["nant"]):
-            for p in range(inst["pols"]):
-                for ci, comp in enumerate(("r", "i")):
-                    seq = calls[(a, p, comp)]
-                    if len(seq) != 2 * nb * cfg["nsub"]:
-                        raise Div("C14", "requantize.calls", 2 * nb * cfg["nsub"], len(seq))
-                    for k in range(0, len(seq), 2):
-                        c1, c2 = seq[k], seq[k + 1]
-                        if c1["custom"] is None or c2["custom"] is not None:
-                            raise Div("C14", "requantize.order", "custom then plain", [c1["custom"], c2["custom"]])
-                        b_ap = np.array(be.filterbank[a][p].channelized_stds, dtype=float) if lazy else base
-                        power = math.log(c1["custom"] / b_ap[ci]) / math.log(tstd)
-                        want_pow = exp["gains"][k // 2]
-                        if abs(power - want_pow) > 1e-6:
-                            raise Div("C14", "gain", {"subblock_call": k // 2, "power_of_target_std": want_pow,
-                                                      "custom_std": float(b_ap[ci] * tstd ** want_pow)},
-                                      {"power_of_target_std": round(power, 4), "custom_std": c1["custom"]})
-                        if c1["tm"] != 0:
-                            raise Div("C14", "synthetic.target_mean", 0, c1["tm"])
-                        if ci == 0 and (not cfg["digitize"] or not inst["tone"]):
-                            rows_ = c1["x"].shape[0]
-                            n0 = (k // 2) * rows_
-                            if cfg["digitize"]:
-                                want_syn = np.zeros((rows_, inst["nch"]))
-                            else:
-                                ref_all = refpipe.pfb_ref(np.asarray(tv[a][p], dtype=float), TAPS, B)
-                                want_syn = np.real(ref_all[n0:n0 + rows_, inst["start_chan"]:inst["start_chan"] + inst["nch"]])
-                            if c1["x"].shape != want_syn.shape or np.max(np.abs(c1["x"] - want_syn)) > 1e-9:
-                                raise Div("C14", "synthetic_spectra", "PFB of the continuous antenna stream (rows %d..)" % n0,
-                                          {"max_abs_diff": float(np.max(np.abs(c1["x"] - want_syn))) if c1["x"].shape == want_syn.shape else "shape",
-                                           "subblock_call": k // 2})
-                        # output block = requantisation of (input + scaled synthetic), target statistics = the input block's
-                        blk_i = (k // 2) // cfg["nsub"]
-                        sb = (k // 2) % cfg["nsub"]
-                        rd = exp["reads"][blk_i]
-                        inp = truth[rd["file"] * cfg["bpf"] + rd["index"]][a * inst["nch"]:(a + 1) * inst["nch"], :, p]
-                        part = np.real(inp) if comp == "r" else np.imag(inp)
-                        if abs(c2["tm"] - part.mean()) > 1e-9 or abs(c2["ts"] - part.std()) > 1e-9:
-                            raise Div("C14", "target_stats", [float(part.mean()), float(part.std())], [c2["tm"], c2["ts"]])
-                        rows = c1["y"].shape[0]
-                        t0 = sb * (T // cfg["nsub"])
-                        want_x2 = c1["y"] + part[:, t0:t0 + rows].T
-                        if c2["x"].shape != want_x2.shape or not np.array_equal(c2["x"], want_x2):
-                            raise Div("C14", "sum_input_plus_synthetic", "input block slice + scaled synthetic", "mismatch at sub-block %d" % sb)
-        # 5. nothing injected, one sub-block: the output reproduces the input bit for bit
-        if not inst["tone"] and cfg["nsub"] == 1:
-            for k, blk in enumerate(out_blocks):
-                rd = exp["reads"][k]
-                want = guppi.encode_block(truth[rd["file"] * cfg["bpf"] + rd["index"]], inst["bits"])
-                if blk["data"] != want:
-                    raise Div("C14", "identity_without_signal", "output bytes = input bytes", "block %d differs" % k)
-        # 6. the file bytes are what the last requantisation returned (standard layout)
-        for a in range(inst["nant"]):
-            for p in range(inst["pols"]):
-                seq_r, seq_i = calls[(a, p, "r")], calls[(a, p, "i")]
-                for blk_i in range(nb):
-                    rows_r = [seq_r[2 * (blk_i * cfg["nsub"] + sb) + 1]["y"] for sb in range(cfg["nsub"])]
-                    rows_i = [seq_i[2 * (blk_i * cfg["nsub"] + sb) + 1]["y"] for sb in range(cfg["nsub"])]
-                    v = np.concatenate(rows_r, axis=0) + 1j * np.concatenate(rows_i, axis=0)      # [T, nch]
-                    got = guppi.decode_block(out_blocks[blk_i]["data"], inst["nch"] * inst["nant"], inst["pols"], inst["bits"])
-                    if not np.array_equal(got[a * inst["nch"]:(a + 1) * inst["nch"], :, p], v.T):
-                        raise Div("C14|C02", "out.bytes", "requantised values in standard layout", "block %d ant %d pol %d" % (blk_i, a, p))
+        twin_obj = [twin]
+        for ridx, rc in enumerate(exp["recs"]):
+            del decoded[:]
+            calls.clear()
+            out_stem = os.path.join(workdir, "out")
+            try:
+                if cfg["req"] == 0:
+                    be.record(out_stem, length_mode="num_blocks", digitize=rc["digitize"], verbose=False, header_dict={})
+                else:
+                    be.record(out_stem, num_blocks=cfg["req"], length_mode="num_blocks", digitize=rc["digitize"], verbose=False,
+                              header_dict={})
+            except Exception as e:
+                raise Div("C14", "record", "ok", "%s: %s" % (type(e).__name__, str(e)[:200]))
+            nb = rc["numBlocks"]
+            # 1. length clamp and accounting
+            if be.num_blocks != nb:
+                raise Div("C14|C20", "num_blocks", nb, be.num_blocks)
+            tpb = T * B / RATE
+            if abs(be.obs_length - nb * tpb) > 1e-12 * nb * tpb or be.total_obs_num_samples != nb * T * B:
+                raise Div("C14|C20", "obs_length/total_obs_num_samples", [nb * tpb, nb * T * B], [be.obs_length, be.total_obs_num_samples])
+            # 2. decode of every input block consumed, in order
+            if len(decoded) != len(rc["reads"]):
+                raise Div("C14", "reads.count", len(rc["reads"]), len(decoded))
+            for k, rd in enumerate(rc["reads"]):
+                want = truth[rd["file"] * cfg["bpf"] + rd["index"]]                     # [obsnchan, T, pols]
+                want2 = want.reshape(want.shape[0], T * inst["pols"])                   # library layout: column = t*pols + pol
+                if decoded[k].shape != want2.shape or not np.array_equal(decoded[k], want2):
+                    bad = np.argwhere(decoded[k] != want2)[:3].tolist() if decoded[k].shape == want2.shape else "shape %s" % (decoded[k].shape,)
+                    raise Div("C14", "decode", {"block": k, "file": rd["file"], "index": rd["index"]}, {"first_wrong": bad})
+            # 3. output framing
+            names = sorted(fn for fn in os.listdir(workdir) if fn.startswith("out."))
+            out_blocks = []
+            for i, fn in enumerate(names):
+                try:
+                    blocks = guppi.parse_file(os.path.join(workdir, fn))
+                except guppi.FramingError as e:
+                    raise Div("C14|C04", "out.framing", "well-formed", str(e))
+                out_blocks += blocks
+            if len(out_blocks) != nb:
+                raise Div("C14", "out.blocks", nb, len(out_blocks))
+            for blk in out_blocks:
+                h = blk["hdr"]
+                got = (h.get("BLOCSIZE"), h.get("NBITS"), h.get("OBSNCHAN"), h.get("NANTS", 1))
+                want = (blocsize, inst["bits"], inst["nch"] * inst["nant"], inst["nant"])
+                if got != want:
+                    raise Div("C14", "out.header", list(want), list(got))
+                if abs(float(h.get("SCANLEN")) - nb * tpb) > 1e-9 * nb * tpb:
+                    raise Div("C14|C20", "out.SCANLEN", nb * tpb, h.get("SCANLEN"))
+            # 4. stationary gain: the custom deviation handed to the requantiser at every sub-block of every block
+            tstd = dig.target_std
+            if lazy:
+                base = np.array(be.filterbank[0][0].channelized_stds, dtype=float).copy()
+                fresh = v_pfb.PolyphaseFilterbank(num_taps=TAPS, num_branches=B).estimate_channelized_stds(factor=4000, seed=9)
+                if base.shape != (2,) or not np.all(np.abs(base / fresh - 1) < 0.08):
+                    raise Div("C14", "channelized_stds", fresh.tolist(), base.tolist())
+            # the synthetic part entering the first requantisation is the PFB of the (digitised) antenna stream: one
+            # continuous timeline over sub-blocks and blocks
+            twin_obj[0].reset_start()
+            tv = twin_obj[0].get_samples((nb * T + TAPS) * B) if nb > 0 else None
+            gains = []
+            for a in range(inst["nant"]):
+                for p in range(inst["pols"]):
+                    for ci, comp in enumerate(("r", "i")):
+                        seq = calls[(a, p, comp)]
+                        if len(seq) != 2 * nb * cfg["nsub"]:
+                            raise Div("C14", "requantize.calls", 2 * nb * cfg["nsub"], len(seq))
+                        for k in range(0, len(seq), 2):
+                            c1, c2 = seq[k], seq[k + 1]
+                            if c1["custom"] is None or c2["custom"] is not None:
+                                raise Div("C14", "requantize.order", "custom then plain", [c1["custom"], c2["custom"]])
+                            b_ap = np.array(be.filterbank[a][p].channelized_stds, dtype=float) if lazy else base
+                            power = math.log(c1["custom"] / b_ap[ci]) / math.log(tstd)
+                            want_pow = rc["gains"][k // 2]
+                            if abs(power - want_pow) > 1e-6:
+                                raise Div("C14", "gain", {"subblock_call": k // 2, "power_of_target_std": want_pow,
+                                                          "custom_std": float(b_ap[ci] * tstd ** want_pow)},
+                                          {"power_of_target_std": round(power, 4), "custom_std": c1["custom"]})
+                            if c1["tm"] != 0:
+                                raise Div("C14", "synthetic.target_mean", 0, c1["tm"])
+                            if ci == 0 and (not rc["digitize"] or not inst["tone"]):
+                                rows_ = c1["x"].shape[0]
+                                n0 = (k // 2) * rows_
+                                if rc["digitize"]:
+                                    want_syn = np.zeros((rows_, inst["nch"]))
+                                else:
+                                    ref_all = refpipe.pfb_ref(np.asarray(tv[a][p], dtype=float), TAPS, B)
+                                    want_syn = np.real(ref_all[n0:n0 + rows_, inst["start_chan"]:inst["start_chan"] + inst["nch"]])
+                                if c1["x"].shape != want_syn.shape or np.max(np.abs(c1["x"] - want_syn)) > 1e-9:
+                                    raise Div("C14", "synthetic_spectra", "PFB of the continuous antenna stream (rows %d..)" % n0,
+                                              {"max_abs_diff": float(np.max(np.abs(c1["x"] - want_syn))) if c1["x"].shape == want_syn.shape else "shape",
+                                               "subblock_call": k // 2})
+                            # output block = requantisation of (input + scaled synthetic), target statistics = the input block's
+                            blk_i = (k // 2) // cfg["nsub"]
+                            sb = (k // 2) % cfg["nsub"]
+                            rd = rc["reads"][blk_i]
+                            inp = truth[rd["file"] * cfg["bpf"] + rd["index"]][a * inst["nch"]:(a + 1) * inst["nch"], :, p]
+                            part = np.real(inp) if comp == "r" else np.imag(inp)
+                            if abs(c2["tm"] - part.mean()) > 1e-9 or abs(c2["ts"] - part.std()) > 1e-9:
+                                raise Div("C14", "target_stats", [float(part.mean()), float(part.std())], [c2["tm"], c2["ts"]])
+                            rows = c1["y"].shape[0]
+                            t0 = sb * (T // cfg["nsub"])
+                            want_x2 = c1["y"] + part[:, t0:t0 + rows].T
+                            if c2["x"].shape != want_x2.shape or not np.array_equal(c2["x"], want_x2):
+                                raise Div("C14", "sum_input_plus_synthetic", "input block slice + scaled synthetic", "mismatch at sub-block %d" % sb)
+            # 5. nothing injected, one sub-block: the output reproduces the input bit for bit
+            if not inst["tone"] and cfg["nsub"] == 1:
+                for k, blk in enumerate(out_blocks):
+                    rd = rc["reads"][k]
+                    want = guppi.encode_block(truth[rd["file"] * cfg["bpf"] + rd["index"]], inst["bits"])
+                    if blk["data"] != want:
+                        raise Div("C14", "identity_without_signal", "output bytes = input bytes", "block %d differs" % k)
+            # 6. the file bytes are what the last requantisation returned (standard layout)
+            for a in range(inst["nant"]):
+                for p in range(inst["pols"]):
+                    seq_r, seq_i = calls[(a, p, "r")], calls[(a, p, "i")]
+                    for blk_i in range(nb):
+                        rows_r = [seq_r[2 * (blk_i * cfg["nsub"] + sb) + 1]["y"] for sb in range(cfg["nsub"])]
+                        rows_i = [seq_i[2 * (blk_i * cfg["nsub"] + sb) + 1]["y"] for sb in range(cfg["nsub"])]
+                        v = np.concatenate(rows_r, axis=0) + 1j * np.concatenate(rows_i, axis=0)      # [T, nch]
+                        got = guppi.decode_block(out_blocks[blk_i]["data"], inst["nch"] * inst["nant"], inst["pols"], inst["bits"])
+                        if not np.array_equal(got[a * inst["nch"]:(a + 1) * inst["nch"], :, p], v.T):
+                            raise Div("C14|C02", "out.bytes", "requantised values in standard layout", "block %d ant %d pol %d" % (blk_i, a, p))
+            for fn in os.listdir(workdir):
+                if fn.startswith("out."):
+                    os.remove(os.path.join(workdir, fn))
     except Div as d:
         divs.append(d)
     finally:
